@@ -1451,6 +1451,15 @@ fn catalogue_inner(prop: &str, t: Tier, seed: u64, out: &mut Vec<Entry>) {
                 let c2 = c.clone();
                 add(format!("ligero-uni/n{}", n), format!("{} coefficients", n), Box::new(move || c19::lincode::<LigeroUni>(&c2, (3, 4), 128, (4, 1), true)));
             }
+            // one commit call over polynomials of very different sizes: each keeps the shape its own size dictates
+            for (tag, lens, sec) in [("n129+n16+n3", vec![129usize, 16, 3], 128usize), ("n3+n64", vec![3usize, 64], 128), ("sec20-n200+n5", vec![200usize, 5], 20)] {
+                if quick && tag == "n3+n64" { continue; }
+                let mut sz = Size::uni(300, 300, 0);
+                sz.ligero = (sec, 4, true);
+                let mut c = Cfg::new(sz, lens.iter().map(|n| PolySpec::new(*n).conc()).collect());
+                c.seed = seed;
+                add(format!("ligero-uni/one-commit-{}", tag), format!("{:?} coefficients committed in one call, lambda {}", lens, sec), Box::new(move || c19::lincode::<LigeroUni>(&c, (3, 4), sec, (4, 1), true)));
+            }
         }
         "C14" => {
             let f = vec!["streaming_kzg::CommitterKey::{new,commit,batch_commit,open,open_multi_points,batch_open_multi_points}", "CommitterKeyStream::{commit,open,open_multi_points,commit_folding}", "VerifierKey::{verify,verify_multi_points}", "FoldedPolynomialTree/Stream iterators"];
